@@ -45,8 +45,28 @@ func showSnap(s *interpreter.State) string {
 	if s.Genesis.EarlyReturn {
 		early = 1
 	}
-	return fmt.Sprintf("%d:%d:%d:%d:%s:%d;%s;%s", s.ScriptIdx, s.OpcodeIdx, s.NumOps, early, strings.Join(cond, ""), s.LastCodeSeparatorIdx,
+	out := fmt.Sprintf("%d:%d:%d:%d:%s:%d;%s;%s", s.ScriptIdx, s.OpcodeIdx, s.NumOps, early, strings.Join(cond, ""), s.LastCodeSeparatorIdx,
 		showStack(s.DataStack), showStack(s.AltStack))
+	if probeAccessors && !snapshotConsistent(s) {
+		out += "!snapshot-does-not-contain-the-script-it-points-into"
+	}
+	return out
+}
+
+// snapshotConsistent: the snapshot holds the script its program counter points into, and its accessors agree with it
+func snapshotConsistent(s *interpreter.State) bool {
+	if s.ScriptIdx < 0 || s.ScriptIdx >= len(s.Scripts) {
+		return false
+	}
+	cur := s.Scripts[s.ScriptIdx]
+	if len(cur) == 0 {
+		return len(s.RemainingScript()) == 0
+	}
+	if s.OpcodeIdx < 0 || s.OpcodeIdx >= len(cur) {
+		return false
+	}
+	op := s.Opcode()
+	return op.Value() == cur[s.OpcodeIdx].Value() && bytes.Equal(op.Data, cur[s.OpcodeIdx].Data) && len(s.RemainingScript()) == len(cur)-s.OpcodeIdx
 }
 
 // probeAccessors: set by the C19 executor — every callback then also uses the State's own accessors (a debugger that
